@@ -112,6 +112,9 @@ def run(prog: Program, rep: Report, tier: str):
     from .c07 import rule_tri
     rule_tri(prog, rep, R="C05.tri")
     rule_nan(prog, rep, "C05.nan")
+    # integer parameters (Normal(0, 1)) become floating arrays because the constructors' dtype=float is honoured
+    from .c14 import rule_cast
+    rule_cast(prog, rep, "C05.cast")
     rule_mix(prog, rep)
     rule_param_bijections(prog, rep)
     if tier == "thorough":
